@@ -5,6 +5,8 @@ import Tw.Proofs.Packet7Read
 import Tw.Proofs.Packet6Bounds
 import Tw.Proofs.Packet7Bounds
 import Tw.Proofs.PacketIterInst
+import Tw.Proofs.PacketFast
+import Tw.Proofs.HuffmanTable
 
 /-!
 # C06 — the packet reader is total and stays inside its buffers
@@ -16,7 +18,7 @@ outcome of the model; `is_initial`, `needs_decompression` and `ChunksIter::next_
 and are total functions into `Bool` / `Option Chunk` by construction (the correspondence harness runs
 the real functions under `catch_unwind`).
 
-Hypotheses about the Huffman table (proved by C07 for the built-in table, connected after merge):
+Hypotheses about the Huffman table (proved by C07; instantiated for the built-in table in the last section):
 * `HuffmanTerminates t` — `Tw.Huffman.decompress_terminates _ Tw.Huffman.wellFormed_table`
   (`Tw.Props.C07.decompress_total`);
 * `HuffmanBounded t` — `Tw.Huffman.decompress_bound` (`Tw.Props.C07.decompress_within_capacity`);
@@ -51,6 +53,13 @@ theorem tie_reader_literals :
     Tw.Gen.Packet7.lits_read_impl = [0, 0, 0, 0, 0, 0, 0, 0, 0, 4, 4, 0, 1, 2, 3, 0, 0, 1, 1, 0, 0] ∧
     Tw.Gen.Packet7.lits_needs_decompression = [0, 0] ∧
     Tw.Gen.Packet7.lits_next_warn = [0, 0, 0, 1] ∧ Tw.Gen.Packet7.lits_read_chunk_header = [0] := by decide
+
+/-- Tie: the buffer size the doc comments of `Packet::read` (both files) ask the caller for is the one the
+code asserts and the theorems below assume (`MAX_PACKETSIZE`).  Before the doc repair the comments said
+`MAX_PAYLOAD` (1390): a caller following them panicked on every call. -/
+theorem tie_documented_buffer_size :
+    Tw.Gen.Packet6.READ_BUFFER_DOCUMENTED = Tw.Gen.Packet6.MAX_PACKETSIZE ∧
+    Tw.Gen.Packet7.READ_BUFFER_DOCUMENTED = Tw.Gen.Packet7.MAX_PACKETSIZE := by decide
 
 /-! ## no panic, no divergence -/
 
@@ -188,5 +197,90 @@ example : Tw.Packet6.read #[] [0x10, 0, 0, 4, 0x68, 0x69, 0] (some false) (some 
 example : Tw.Packet6.needsDecompression [0x10, 0, 0, 4] = false := by decide
 example : Tw.Packet6.needsDecompression [0x80, 0, 0] = true := by decide
 example : ∃ s, Tw.Packet6.read #[] [0x10, 0, 0, 4] none (some 1399) = .panic s := ⟨_, rfl⟩
+
+/-! ## the drivers' evaluation of the reader
+
+The correspondence drivers evaluate `readWith (Tw.Huffman.decompressFast table)` (the decoder carries the
+remaining capacity instead of measuring the output per byte); these theorems make that the model's
+`read` / `decompressIfNeeded`. -/
+
+theorem v6_driver_evaluates_read (t : Tw.Huffman.Table) (bytes : List UInt8) (hint : Option Bool)
+    (buffer : Option Nat) (cap : Nat) :
+    Tw.Packet6.readWith (Tw.Huffman.decompressFast t) bytes hint buffer = Tw.Packet6.read t bytes hint buffer ∧
+    Tw.Packet6.decompressIfNeededWith (Tw.Huffman.decompressFast t) bytes cap =
+      Tw.Packet6.decompressIfNeeded t bytes cap :=
+  ⟨Tw.Packet6.readWith_fast t bytes hint buffer, Tw.Packet6.decompressIfNeededWith_fast t bytes cap⟩
+
+theorem v7_driver_evaluates_read (t : Tw.Huffman.Table) (bytes : List UInt8) (buffer : Option Nat) (cap : Nat) :
+    Tw.Packet7.readWith (Tw.Huffman.decompressFast t) bytes buffer = Tw.Packet7.read t bytes buffer ∧
+    Tw.Packet7.decompressIfNeededWith (Tw.Huffman.decompressFast t) bytes cap =
+      Tw.Packet7.decompressIfNeeded t bytes cap :=
+  ⟨Tw.Packet7.readWith_fast t bytes buffer, Tw.Packet7.decompressIfNeededWith_fast t bytes cap⟩
+
+/-! ## C06 for the built-in table, without any hypothesis about the Huffman codec
+
+`Tw.Huffman.wellFormed_table` (kernel `decide` on the regenerated table), `decompress_terminates`,
+`decompress_bound`, `decompress_compress` of C07 discharge the three hypotheses. -/
+
+theorem huffmanTerminates_table : HuffmanTerminates Tw.Gen.Huffman.table :=
+  fun input cap => Tw.Huffman.decompress_terminates _ Tw.Huffman.wellFormed_table input cap
+
+/-- **0.6, real table: the reader is total** — for every byte string, every hint and every scratch
+buffer of at least `MAX_PACKETSIZE` bytes `Packet::read` returns `ok` or `err`: it neither panics nor
+diverges. -/
+theorem v6_read_total_table (bytes : List UInt8) (hint : Option Bool) (cap : Nat)
+    (hcap : Tw.Gen.Packet6.MAX_PACKETSIZE ≤ cap) :
+    (∃ r, Tw.Packet6.read Tw.Gen.Huffman.table bytes hint (some cap) = .ok r) ∨
+    (∃ e ws, Tw.Packet6.read Tw.Gen.Huffman.table bytes hint (some cap) = .err e ws) := by
+  have h1 := v6_read_never_panics Tw.Gen.Huffman.table bytes hint cap hcap
+  have h2 := v6_read_terminates Tw.Gen.Huffman.table huffmanTerminates_table bytes hint (some cap)
+  cases h : Tw.Packet6.read Tw.Gen.Huffman.table bytes hint (some cap) with
+  | ok r => exact Or.inl ⟨r, rfl⟩
+  | err e ws => exact Or.inr ⟨e, ws, rfl⟩
+  | panic s => exact absurd h (h1 s)
+  | diverge => exact absurd h h2
+
+theorem v7_read_total_table (bytes : List UInt8) (cap : Nat) (hcap : Tw.Gen.Packet7.MAX_PACKETSIZE ≤ cap) :
+    (∃ r, Tw.Packet7.read Tw.Gen.Huffman.table bytes (some cap) = .ok r) ∨
+    (∃ e ws, Tw.Packet7.read Tw.Gen.Huffman.table bytes (some cap) = .err e ws) := by
+  have h1 := v7_read_never_panics Tw.Gen.Huffman.table bytes cap hcap
+  have h2 := v7_read_terminates Tw.Gen.Huffman.table huffmanTerminates_table bytes (some cap)
+  cases h : Tw.Packet7.read Tw.Gen.Huffman.table bytes (some cap) with
+  | ok r => exact Or.inl ⟨r, rfl⟩
+  | err e ws => exact Or.inr ⟨e, ws, rfl⟩
+  | panic s => exact absurd h (h1 s)
+  | diverge => exact absurd h h2
+
+/-- **0.6, real table: slices stay inside the buffers.** -/
+theorem v6_read_slices_inside_buffers_table (bytes : List UInt8) (hint : Option Bool) (cap : Nat)
+    (r : Tw.Packet6.ReadOk) (hr : Tw.Packet6.read Tw.Gen.Huffman.table bytes hint (some cap) = .ok r) :
+    r.Located bytes ∧ r.scratch.length ≤ cap :=
+  v6_read_slices_inside_buffers _ (fun i c o h => Tw.Huffman.decompress_bound _ i c o h) bytes hint cap r hr
+
+theorem v7_read_slices_inside_buffers_table (bytes : List UInt8) (cap : Nat)
+    (r : Tw.Packet7.ReadOk) (hr : Tw.Packet7.read Tw.Gen.Huffman.table bytes (some cap) = .ok r) :
+    r.Located bytes ∧ r.scratch.length ≤ cap :=
+  v7_read_slices_inside_buffers _ (fun i c o h => Tw.Huffman.decompress_bound _ i c o h) bytes cap r hr
+
+/-- **0.6, real table: whatever the reader accepts can be written again and is read back unchanged.** -/
+theorem v6_accepted_is_rewritable_table (bytes : List UInt8) (hint : Option Bool) (buffer : Option Nat)
+    (r : Tw.Packet6.ReadOk) (hr : Tw.Packet6.read Tw.Gen.Huffman.table bytes hint buffer = .ok r)
+    (cap scap : Nat) (hcap : Tw.Gen.Packet6.MAX_PACKETSIZE ≤ cap) (hs : Tw.Gen.Packet6.MAX_PACKETSIZE ≤ scap) :
+    ∃ bs, Tw.Packet6.write Tw.Gen.Huffman.table r.pkt cap = .ok bs ∧ bs.length ≤ Tw.Gen.Packet6.MAX_PACKETSIZE ∧
+      ∃ r', Tw.Packet6.read Tw.Gen.Huffman.table bs (some r.pkt.hasToken) (some scap) = .ok r' ∧
+        r'.pkt = r.pkt ∧ r'.warns = Tw.Packet6.expectedWarnings r.pkt :=
+  v6_accepted_is_rewritable _
+    (fun xs c h => Tw.Huffman.decompress_compress _ Tw.Huffman.wellFormed_table false xs c h)
+    bytes hint buffer r hr cap scap hcap hs
+
+theorem v7_accepted_is_rewritable_table (bytes : List UInt8) (buffer : Option Nat)
+    (r : Tw.Packet7.ReadOk) (hr : Tw.Packet7.read Tw.Gen.Huffman.table bytes buffer = .ok r)
+    (cap scap : Nat) (hcap : Tw.Gen.Packet7.MAX_PACKETSIZE ≤ cap) (hs : Tw.Gen.Packet7.MAX_PACKETSIZE ≤ scap) :
+    ∃ bs, Tw.Packet7.write Tw.Gen.Huffman.table r.pkt cap = .ok bs ∧ bs.length ≤ Tw.Gen.Packet7.MAX_PACKETSIZE ∧
+      ∃ r', Tw.Packet7.read Tw.Gen.Huffman.table bs (some scap) = .ok r' ∧
+        r'.pkt = r.pkt ∧ r'.warns = Tw.Packet7.expectedWarnings r.pkt :=
+  v7_accepted_is_rewritable _
+    (fun xs c h => Tw.Huffman.decompress_compress _ Tw.Huffman.wellFormed_table false xs c h)
+    bytes buffer r hr cap scap hcap hs
 
 end Tw.Props.C06
